@@ -25,6 +25,7 @@ def c3(ctx):
 
 
 def c5(ctx):
+    serial.str_is_serialize(ctx)
     serial.layout(ctx)
     serial.serializer_raw_text(ctx)
 
